@@ -662,7 +662,7 @@ fn ob_mpmc_core_drop_once_cap3() { step_drop_once(3); }
 #[kani::unwind(8)]
 fn ob_mpmc_core_try_recv_batch_cap1s0() { step_try_recv_batch(1, 0, usize::MAX); }
 
-// @obligation id=mpmc.core.try_recv_batch.cap1s1m1 props=C01,C02,C06 kind=step tier=thorough bound="logical capacity 1, 1 async sender waiter (WAITING or CANCELLED); head any usize; buffered values any u8; counts any <=2; max = 1"
+// @obligation id=mpmc.core.try_recv_batch.cap1s1m1 props=C01,C02,C06 kind=step tier=probe bound="logical capacity 1, 1 async sender waiter (WAITING or CANCELLED); head any usize; buffered values any u8; counts any <=2; max = 1"
 #[kani::proof]
 #[kani::stub(std::thread::current::current, crate::verif_k_stubs::stub_thread_current)]
 #[kani::stub(parking_lot::RawMutex::lock_slow, crate::verif_k_stubs::stub_lock_slow)]
@@ -671,7 +671,7 @@ fn ob_mpmc_core_try_recv_batch_cap1s0() { step_try_recv_batch(1, 0, usize::MAX);
 #[kani::unwind(8)]
 fn ob_mpmc_core_try_recv_batch_cap1s1m1() { step_try_recv_batch(1, 1, 1); }
 
-// @obligation id=mpmc.core.try_recv_batch.cap1s1m2 props=C01,C02,C06 kind=step tier=thorough bound="logical capacity 1, 1 async sender waiter (WAITING or CANCELLED); head any usize; buffered values any u8; counts any <=2; max = 2"
+// @obligation id=mpmc.core.try_recv_batch.cap1s1m2 props=C01,C02,C06 kind=step tier=probe bound="logical capacity 1, 1 async sender waiter (WAITING or CANCELLED); head any usize; buffered values any u8; counts any <=2; max = 2"
 #[kani::proof]
 #[kani::stub(std::thread::current::current, crate::verif_k_stubs::stub_thread_current)]
 #[kani::stub(parking_lot::RawMutex::lock_slow, crate::verif_k_stubs::stub_lock_slow)]
@@ -689,7 +689,7 @@ fn ob_mpmc_core_try_recv_batch_cap1s1m2() { step_try_recv_batch(1, 1, 2); }
 #[kani::unwind(8)]
 fn ob_mpmc_core_try_recv_batch_cap3s0() { step_try_recv_batch(3, 0, usize::MAX); }
 
-// @obligation id=mpmc.core.try_recv_batch.cap3s1m1 props=C01,C02,C06 kind=step tier=thorough bound="logical capacity 3, 1 async sender waiter (WAITING or CANCELLED); head any usize; buffered values any u8; counts any <=2; max = 1"
+// @obligation id=mpmc.core.try_recv_batch.cap3s1m1 props=C01,C02,C06 kind=step tier=probe bound="logical capacity 3, 1 async sender waiter (WAITING or CANCELLED); head any usize; buffered values any u8; counts any <=2; max = 1"
 #[kani::proof]
 #[kani::stub(std::thread::current::current, crate::verif_k_stubs::stub_thread_current)]
 #[kani::stub(parking_lot::RawMutex::lock_slow, crate::verif_k_stubs::stub_lock_slow)]
@@ -698,7 +698,7 @@ fn ob_mpmc_core_try_recv_batch_cap3s0() { step_try_recv_batch(3, 0, usize::MAX);
 #[kani::unwind(8)]
 fn ob_mpmc_core_try_recv_batch_cap3s1m1() { step_try_recv_batch(3, 1, 1); }
 
-// @obligation id=mpmc.core.try_recv_batch.cap3s1m2 props=C01,C02,C06 kind=step tier=thorough bound="logical capacity 3, 1 async sender waiter (WAITING or CANCELLED); head any usize; buffered values any u8; counts any <=2; max = 2"
+// @obligation id=mpmc.core.try_recv_batch.cap3s1m2 props=C01,C02,C06 kind=step tier=probe bound="logical capacity 3, 1 async sender waiter (WAITING or CANCELLED); head any usize; buffered values any u8; counts any <=2; max = 2"
 #[kani::proof]
 #[kani::stub(std::thread::current::current, crate::verif_k_stubs::stub_thread_current)]
 #[kani::stub(parking_lot::RawMutex::lock_slow, crate::verif_k_stubs::stub_lock_slow)]
